@@ -1226,6 +1226,8 @@ def run(ctx, drv):
             cli_collect(ctx, drv, cli_jobs)
             t.append(time.time())
             CT.collect(ctx, drv, tp_job, tp_in)
+            from harness.props import c14_metrics as CM  # metric lines / distance matrix of the text-level pipeline (Props/C14Metrics.lean)
+            CM.stream(ctx, drv)
             t.append(time.time())
             ctx.extra["timings_s"] = dict(zip(["submit", "table_stream", "analysis_stream", "textperm_in_process", "wait_for_subprocesses", "textperm_compare"],
                                               [round(b - a, 1) for a, b in zip(t, t[1:])]))
@@ -1238,6 +1240,9 @@ def search(ctx, drv):
 def replay(ctx, drv, case):
     if case.get("kind") == "textperm":
         return CT.replay(ctx, drv, case)
+    if case.get("kind") == "textmetrics":
+        from harness.props import c14_metrics as CM
+        return CM.replay(ctx, drv, case)
     out = {"kind": case.get("kind"), "section": case.get("section")}
     if case.get("kind") in ("cli", "modes"):
         with core.Scratch() as scratch:
